@@ -152,6 +152,7 @@ def explore_l3(runs, base, groups=6):
     with ProcessPoolExecutor(max_workers=len(jobs)) as ex:
         for (b, k, rs), out in zip(jobs, ex.map(_l3_one, jobs)):
             for cfg, o in zip(rs, out):
+                if o.get("skipped"): continue
                 if not o["events"]:
                     raise RuntimeError("L3 run produced no trace: %s %s" % (cfg, o["notes"]))
                 traces.append(o["events"]); meta.append({"cfg": cfg, "sched": cfg.get("order") if isinstance(cfg.get("order"), list) else [1], "notes": o["notes"], "driver": "L3"})
